@@ -53,6 +53,7 @@ Inductive aeff :=
 | ACounterPopPlus1OffsetPops
 | AOffsetPush | AOffsetPop (k : N) | AOffsetNeed (k : N)
 | ACodePush | ACodePop
+| ACustomConsume            (* ConsumeCustomDice: advance over the text matched by the custom dice parser *)
 | ANop
 | AUnknown.
 
@@ -164,6 +165,10 @@ Definition RuneError : N := 65533.
 Section Input.
   Variable input : PositiveMap.t N.     (* byte at offset o stored under key o+1 *)
   Variable ilen : N.
+  (* registered custom dice parsers as a function of the byte offset: Some len = the first registered parser
+     that matches at that offset matches len > 0 bytes; None = nothing matches (always None when no custom dice
+     is registered). Deterministic for a fixed input, like the Go matchers. *)
+  Variable cmatch : N -> option N.
   Definition byte_at (o : N) : option N := if o <? ilen then PositiveMap.find (N.succ_pos o) input else None.
 
   Definition cont (b : N) : bool := (128 <=? b) && (b <=? 191).
@@ -346,18 +351,37 @@ Section Input.
         | [] => d_panic_set d
         end
       | ANop => k same
+      | ACustomConsume => k same
       | AUnknown => k (mk (d_cfg d) (d_fstack d) (d_loop d) (d_saves d) (d_names d) (d_counters d) (d_jmps d) (d_emitted d) (d_errs d) true)
       end
     end end.
 
+  Fixpoint has_consume (l : list aeff) : bool :=
+    match l with [] => false | ACustomConsume :: _ => true | _ :: r => has_consume r end.
+
+  (* for p.pt.offset < targetOffset { p.read() } *)
+  Fixpoint read_until (fuel : nat) (target : N) (s : pst) : pst :=
+    match fuel with
+    | O => s
+    | S f => if off (cur s) <? target then read_until f target (read s) else s
+    end.
+
+  Definition custom_consume (s : pst) : pst :=
+    match cmatch (off (cur s)) with
+    | Some len => if 0 <? len then read_until (S (N.to_nat len)) (off (cur s) + len) s else s
+    | None => s
+    end.
+
   Definition run_action (fn : N) (s : pst) : pst :=
-    put_data s (run_effs 4096 (cap_id s) (cap_on s) (off (cur s)) (nth (N.to_nat fn) acts [AUnknown]) (get_data s)).
+    let effs := nth (N.to_nat fn) acts [AUnknown] in
+    let s' := put_data s (run_effs 4096 (cap_id s) (cap_on s) (off (cur s)) effs (get_data s)) in
+    if has_consume effs then custom_consume s' else s'.
 
   Definition run_pred (fn : N) (s : pst) : bool * pst :=
     match nth (N.to_nat fn) preds PUnknownP with
     | PFlag f v => (Bool.eqb (getf (cfg s) f) v, s)
     | PConstP b err => (b, if err then add_err s else s)
-    | PCustomP => (false, s)
+    | PCustomP => (match cmatch (off (cur s)) with Some len => 0 <? len | None => false end, s)
     | PUnknownP => (false, put_data s (run_effs 2 (0, 0) (0, 0) 0 [AUnknown] (get_data s)))
     end.
 
@@ -492,11 +516,14 @@ Record presult := {
   r_ok : bool; r_off : N; r_cnt : N; r_errs : N; r_mf : N * N * N; r_emitted : list N; r_cfg : flags;
   r_panic : bool; r_unknown : bool; r_fuelout : bool }.
 
-Definition parse (rules : list pexpr) (classes : list (list (N * N * N))) (acts : list (list aeff)) (preds : list psum)
+Definition parse_custom (cmatch : N -> option N) (rules : list pexpr) (classes : list (list (N * N * N))) (acts : list (list aeff)) (preds : list psum)
            (fuel : nat) (fl : flags) (bytes : list N) : presult :=
   let input := mk_input bytes 0 (PositiveMap.empty _) in
   let ilen := N.of_nat (List.length bytes) in
   let s := read input ilen (init_pst fl) in
-  let '(ok, s1) := pe input ilen rules classes acts preds fuel (nth 0 rules (PAny 0)) s in
+  let '(ok, s1) := pe input ilen cmatch rules classes acts preds fuel (nth 0 rules (PAny 0)) s in
   {| r_ok := ok; r_off := off (cur s1); r_cnt := cnt s1; r_errs := errs s1; r_mf := mf s1; r_emitted := emitted s1;
      r_cfg := cfg s1; r_panic := panic s1; r_unknown := unknown s1; r_fuelout := fuelout s1 |}.
+
+(* no custom dice registered *)
+Definition parse := parse_custom (fun _ => None).
